@@ -181,7 +181,11 @@ class Run(DoitCmdBase):
         # sub-classes might not have this option
         if 'reporter' in self.cmdparser:
             choices = {k: v.desc for k, v in reporters.items()}
-            self.cmdparser['reporter'].choices = choices
+            opt = self.cmdparser['reporter']
+            opt.choices = choices
+            # a value from a config file was set before the choices were known
+            if isinstance(opt.default, str):
+                opt.validate_choice(opt.default)
 
         return reporters
 
@@ -219,6 +223,9 @@ class Run(DoitCmdBase):
 
         # reporter
         if isinstance(reporter, str):
+            if reporter not in self.reporters:
+                # a value from DOIT_CONFIG is not checked by the parser
+                self.cmdparser['reporter'].validate_choice(reporter)
             reporter_cls = self.reporters[reporter]
         else:
             # user defined class
